@@ -3,6 +3,7 @@ package props
 import (
 	"encoding/json"
 	"fmt"
+	"reflect"
 	"sort"
 	"strings"
 	"testing"
@@ -304,6 +305,32 @@ func maybeNested(rt *rapid.T, c *val.Case, rs *gen.RuleSet) {
 	if rapid.IntRange(0, 2).Draw(rt, "nested_run") == 0 {
 		c.NestedAt = rapid.IntRange(1, 4).Draw(rt, "nested_at_probe")
 		rs.Feat["nested_run_on_the_same_engine"]++
+		if rapid.Bool().Draw(rt, "nested_at_every_probe") {
+			// ... at every probe invocation from that one on
+			c.NestedAt = -c.NestedAt
+			rs.Feat["nested_run_at_every_probe_invocation"]++
+		}
+		if rapid.Bool().Draw(rt, "nested_probe_in_condition") {
+			// make sure a probe is invoked from a condition, and again whenever a location the rules write has
+			// changed: one rule's condition gets the conjunct F.PV(id, h) == h in front (true by construction; the
+			// call is evaluated anew after every assignment to the hot location h)
+			r := c.Rules[rapid.IntRange(0, len(c.Rules)-1).Draw(rt, "nested_probe_rule")]
+			id := gast.I(int64(rapid.IntRange(0, 3).Draw(rt, "nested_probe_id")))
+			var conj gast.Expr = &gast.Bin{Op: gast.OpEq, L: &gast.Call{Recv: gast.P("F"), Name: "P", Args: []gast.Expr{id}}, R: id}
+			var cands []gen.PathInfo
+			for _, h := range rs.Hot {
+				if h.T == gast.TInt && h.Kind == reflect.Int64 && h.Backend == "go" && !h.ArithOnly && !h.Unsigned && !h.Loose {
+					cands = append(cands, h)
+				}
+			}
+			if len(cands) > 0 {
+				h := cands[rapid.IntRange(0, len(cands)-1).Draw(rt, "nested_probe_hot")]
+				conj = &gast.Bin{Op: gast.OpEq, L: &gast.Call{Recv: gast.P("F"), Name: "PV", Args: []gast.Expr{id, h.Mk()}}, R: h.Mk()}
+			}
+			r.When = &gast.Bin{Op: gast.OpAnd, L: conj, R: &gast.Paren{X: r.When}}
+			c14Rerender(c)
+			rs.Feat["probe_conjunct_in_front_of_a_condition"]++
+		}
 	}
 }
 
